@@ -329,3 +329,164 @@ pub fn survives_in_child(mem_bytes: u64, secs: u32, f: impl FnOnce()) -> bool {
         libc::WIFEXITED(status) && libc::WEXITSTATUS(status) == 0
     }
 }
+
+// ---------------------------------------------------------------------------------------------
+// Pristine-process oracle: a server forked before the first simulation of the shard; every
+// request is answered by a freshly forked child of that server, i.e. by a process that has never
+// run anything — the "fresh process" of C20 — under memory and time limits.
+// ---------------------------------------------------------------------------------------------
+
+pub struct Pristine {
+    to_server: libc::c_int,
+    from_server: libc::c_int,
+    pid: libc::pid_t,
+}
+
+unsafe fn write_all(fd: libc::c_int, mut p: *const u8, mut n: usize) -> bool {
+    while n > 0 {
+        let r = libc::write(fd, p as *const libc::c_void, n);
+        if r <= 0 {
+            if r < 0 && *libc::__errno_location() == libc::EINTR {
+                continue;
+            }
+            return false;
+        }
+        p = p.add(r as usize);
+        n -= r as usize;
+    }
+    true
+}
+unsafe fn read_all(fd: libc::c_int, mut p: *mut u8, mut n: usize) -> bool {
+    while n > 0 {
+        let r = libc::read(fd, p as *mut libc::c_void, n);
+        if r <= 0 {
+            if r < 0 && *libc::__errno_location() == libc::EINTR {
+                continue;
+            }
+            return false;
+        }
+        p = p.add(r as usize);
+        n -= r as usize;
+    }
+    true
+}
+
+impl Pristine {
+    /// Must be called while the process is single-threaded and before any simulation has run.
+    /// `handler(request, time_limit_s)` runs in the fresh grandchild and returns the answer bytes.
+    pub fn start(mem_bytes: u64, handler: fn(&[u8]) -> Vec<u8>) -> Option<Pristine> {
+        unsafe {
+            let mut a = [0 as libc::c_int; 2];
+            let mut b = [0 as libc::c_int; 2];
+            if libc::pipe(a.as_mut_ptr()) != 0 || libc::pipe(b.as_mut_ptr()) != 0 {
+                return None;
+            }
+            let pid = libc::fork();
+            if pid < 0 {
+                return None;
+            }
+            if pid == 0 {
+                // ---- server (pristine; never simulates itself)
+                libc::close(a[1]);
+                libc::close(b[0]);
+                let devnull = libc::open(c"/dev/null".as_ptr(), libc::O_WRONLY);
+                if devnull >= 0 {
+                    libc::dup2(devnull, 2);
+                    libc::dup2(devnull, 1);
+                }
+                loop {
+                    let mut hdr = [0u8; 8];
+                    if !read_all(a[0], hdr.as_mut_ptr(), 8) {
+                        libc::_exit(0);
+                    }
+                    let len = u32::from_le_bytes(hdr[0..4].try_into().unwrap()) as usize;
+                    let secs = u32::from_le_bytes(hdr[4..8].try_into().unwrap());
+                    if len == 0 {
+                        libc::_exit(0);
+                    }
+                    let mut req = vec![0u8; len];
+                    if !read_all(a[0], req.as_mut_ptr(), len) {
+                        libc::_exit(0);
+                    }
+                    let mut ans = [0 as libc::c_int; 2];
+                    if libc::pipe(ans.as_mut_ptr()) != 0 {
+                        libc::_exit(3);
+                    }
+                    let child = libc::fork();
+                    if child == 0 {
+                        libc::close(ans[0]);
+                        let lim = libc::rlimit { rlim_cur: mem_bytes, rlim_max: mem_bytes };
+                        libc::setrlimit(libc::RLIMIT_AS, &lim);
+                        libc::alarm(secs);
+                        let out = handler(&req);
+                        let l = (out.len() as u32).to_le_bytes();
+                        write_all(ans[1], l.as_ptr(), 4);
+                        write_all(ans[1], out.as_ptr(), out.len());
+                        libc::_exit(0);
+                    }
+                    libc::close(ans[1]);
+                    let mut l = [0u8; 4];
+                    let mut out: Vec<u8> = vec![];
+                    let ok = child > 0 && read_all(ans[0], l.as_mut_ptr(), 4) && {
+                        out = vec![0u8; u32::from_le_bytes(l) as usize];
+                        read_all(ans[0], out.as_mut_ptr(), out.len())
+                    };
+                    libc::close(ans[0]);
+                    if child > 0 {
+                        let mut st = 0;
+                        libc::waitpid(child, &mut st, 0);
+                    }
+                    // reply: 1 byte status (1 ok, 0 failed) + u32 len + bytes
+                    let status = [ok as u8];
+                    let ol = (if ok { out.len() as u32 } else { 0 }).to_le_bytes();
+                    if !write_all(b[1], status.as_ptr(), 1) || !write_all(b[1], ol.as_ptr(), 4) || (ok && !write_all(b[1], out.as_ptr(), out.len())) {
+                        libc::_exit(0);
+                    }
+                }
+            }
+            libc::close(a[0]);
+            libc::close(b[1]);
+            Some(Pristine { to_server: a[1], from_server: b[0], pid })
+        }
+    }
+
+    /// `None` = the fresh process did not finish within its limits (or died).
+    pub fn ask(&self, req: &[u8], secs: u32) -> Option<Vec<u8>> {
+        unsafe {
+            let mut hdr = [0u8; 8];
+            hdr[0..4].copy_from_slice(&(req.len() as u32).to_le_bytes());
+            hdr[4..8].copy_from_slice(&secs.to_le_bytes());
+            if !write_all(self.to_server, hdr.as_ptr(), 8) || !write_all(self.to_server, req.as_ptr(), req.len()) {
+                return None;
+            }
+            let mut st = [0u8; 1];
+            let mut l = [0u8; 4];
+            if !read_all(self.from_server, st.as_mut_ptr(), 1) || !read_all(self.from_server, l.as_mut_ptr(), 4) {
+                return None;
+            }
+            let n = u32::from_le_bytes(l) as usize;
+            let mut out = vec![0u8; n];
+            if n > 0 && !read_all(self.from_server, out.as_mut_ptr(), n) {
+                return None;
+            }
+            if st[0] == 1 {
+                Some(out)
+            } else {
+                None
+            }
+        }
+    }
+}
+
+impl Drop for Pristine {
+    fn drop(&mut self) {
+        unsafe {
+            let hdr = [0u8; 8];
+            write_all(self.to_server, hdr.as_ptr(), 8);
+            libc::close(self.to_server);
+            libc::close(self.from_server);
+            let mut st = 0;
+            libc::waitpid(self.pid, &mut st, 0);
+        }
+    }
+}
